@@ -3,52 +3,90 @@
 (* The caller-supplied workspace of p?gstrf (lwork > 0) as the two-ended   *)
 (* stack it is (p?memory.c): L/U arrays are carved from the head           *)
 (* (top1 grows), the per-thread work arrays from the tail (top2 shrinks),  *)
-(* under one lock.  Workers start and finish in any order.                 *)
+(* under one lock.  Workers start and finish in any order.  Every worker   *)
+(* (p?gstrf_WorkInit) registers, takes its integer array, then its real    *)
+(* array, which must start at an address that is a multiple of 8.          *)
+(* Unit = 4 bytes; the buffer starts Off units past an 8-byte boundary     *)
+(* (Off = 1: a workspace carved out of an int pool).                       *)
+(*                                                                         *)
 (* TailPolicy = "last": the tail is released when the last registered      *)
 (* worker is done (the code after the F13 repair); "first": when the first *)
-(* worker leaves (original code).  TLC checks the invariants for every     *)
-(* interleaving; with "first" it finds the overlap of F13.                 *)
-(* Sizes are abstract units; a request that does not fit returns NULL and  *)
-(* the worker gives up (documented: info > n).                             *)
+(* worker leaves (original code).                                          *)
+(* AlignPolicy = "inside": ONE request of DNeed + 2 units, the array is    *)
+(* aligned upwards inside the block (the code after the F24 repair);       *)
+(* "second": request DNeed units, then -- in a SECOND critical section --  *)
+(* move the pointer down to the boundary and lower top2 (original code).   *)
+(* TLC checks the invariants for every interleaving; with "first" it finds *)
+(* the overlap of F13, with "second" and Off = 1 the overlap of F24.       *)
+(* A request that does not fit returns NULL and the worker gives up        *)
+(* (documented: info > n).                                                 *)
 (***************************************************************************)
 EXTENDS Naturals, Integers, FiniteSets, Sequences, TLC
-CONSTANTS P, Size, HeadNeed, WorkNeed, TailPolicy
+CONSTANTS P, Size, HeadNeed, INeed, DNeed, Off, TailPolicy, AlignPolicy
 Procs == 1..P
-VARIABLES top1, top2, used, users, wpc, wlo, whi
-vars == <<top1, top2, used, users, wpc, wlo, whi>>
+VARIABLES top1, top2, used, users, wpc, ilo, ihi, dlo, dhi
+vars == <<top1, top2, used, users, wpc, ilo, ihi, dlo, dhi>>
 
+Zero == [p \in Procs |-> 0]
 Init == /\ top1 = HeadNeed /\ top2 = Size /\ used = HeadNeed /\ users = 0
-        /\ wpc = [p \in Procs |-> "start"] /\ wlo = [p \in Procs |-> 0] /\ whi = [p \in Procs |-> 0]
+        /\ wpc = [p \in Procs |-> "start"] /\ ilo = Zero /\ ihi = Zero /\ dlo = Zero /\ dhi = Zero
 
+Misaligned(idx) == (Off + idx) % 2 = 1            \* the address of unit idx is not a multiple of 8
 \* StackFull(x) == x + used >= size
 Full(x) == x + used >= Size
 Register(p) == /\ wpc[p] = "start"
                /\ users' = users + 1
-               /\ wpc' = [wpc EXCEPT ![p] = "alloc"]
-               /\ UNCHANGED <<top1, top2, used, wlo, whi>>
+               /\ wpc' = [wpc EXCEPT ![p] = "ialloc"]
+               /\ UNCHANGED <<top1, top2, used, ilo, ihi, dlo, dhi>>
 Release(p) == LET u == users - 1 IN
               IF (TailPolicy = "first") \/ u <= 0
               THEN /\ used' = used - (Size - top2) /\ top2' = Size
-                   /\ users' = (IF u < 0 THEN 0 ELSE u) /\ UNCHANGED <<top1, wlo, whi>>
-              ELSE users' = u /\ UNCHANGED <<top1, top2, used, wlo, whi>>
-Alloc(p) == /\ wpc[p] = "alloc"
-            /\ IF Full(WorkNeed)
-               THEN /\ wpc' = [wpc EXCEPT ![p] = "failed"]              \* returns isize + n
-                    /\ Release(p)
-               ELSE /\ top2' = top2 - WorkNeed /\ used' = used + WorkNeed
-                    /\ wlo' = [wlo EXCEPT ![p] = top2 - WorkNeed] /\ whi' = [whi EXCEPT ![p] = top2]
-                    /\ wpc' = [wpc EXCEPT ![p] = "run"] /\ UNCHANGED <<top1, users>>
+                   /\ users' = (IF u < 0 THEN 0 ELSE u) /\ UNCHANGED <<top1, ilo, ihi, dlo, dhi>>
+              ELSE users' = u /\ UNCHANGED <<top1, top2, used, ilo, ihi, dlo, dhi>>
+Fail(p) == wpc' = [wpc EXCEPT ![p] = "failed"] /\ Release(p)
+\* ?user_malloc(isize, TAIL): one critical section
+AllocI(p) == /\ wpc[p] = "ialloc"
+             /\ IF Full(INeed) THEN Fail(p)
+                ELSE /\ top2' = top2 - INeed /\ used' = used + INeed
+                     /\ ilo' = [ilo EXCEPT ![p] = top2 - INeed] /\ ihi' = [ihi EXCEPT ![p] = top2]
+                     /\ wpc' = [wpc EXCEPT ![p] = "dalloc"] /\ UNCHANGED <<top1, users, dlo, dhi>>
+\* the real array
+AllocD(p) ==
+    /\ wpc[p] = "dalloc"
+    /\ IF AlignPolicy = "inside"
+       THEN IF Full(DNeed + 2) THEN Fail(p)
+            ELSE LET b == top2 - (DNeed + 2)  a == IF Misaligned(b) THEN b + 1 ELSE b IN
+                 /\ top2' = b /\ used' = used + DNeed + 2
+                 /\ dlo' = [dlo EXCEPT ![p] = a] /\ dhi' = [dhi EXCEPT ![p] = a + DNeed]
+                 /\ wpc' = [wpc EXCEPT ![p] = "run"] /\ UNCHANGED <<top1, users, ilo, ihi>>
+       ELSE IF Full(DNeed) THEN Fail(p)
+            ELSE LET b == top2 - DNeed IN
+                 /\ top2' = b /\ used' = used + DNeed
+                 \* the pointer is moved down to the boundary at once (DoubleAlign, then one double back) ...
+                 /\ dlo' = [dlo EXCEPT ![p] = IF Misaligned(b) THEN b - 1 ELSE b]
+                 /\ dhi' = [dhi EXCEPT ![p] = (IF Misaligned(b) THEN b - 1 ELSE b) + DNeed]
+                 /\ wpc' = [wpc EXCEPT ![p] = IF Misaligned(b) THEN "adjust" ELSE "run"] /\ UNCHANGED <<top1, users, ilo, ihi>>
+\* ... and the stack learns about it in a second critical section, without a room test
+Adjust(p) == /\ wpc[p] = "adjust"
+             /\ top2' = top2 - 1 /\ used' = used + 1
+             /\ wpc' = [wpc EXCEPT ![p] = "run"] /\ UNCHANGED <<top1, users, ilo, ihi, dlo, dhi>>
 Finish(p) == /\ wpc[p] = "run"
              /\ wpc' = [wpc EXCEPT ![p] = "done"]
              /\ Release(p)
-Next == (\E p \in Procs : Register(p) \/ Alloc(p) \/ Finish(p)) \/ ((\A p \in Procs : wpc[p] \in {"done", "failed"}) /\ UNCHANGED vars)
+Next == (\E p \in Procs : Register(p) \/ AllocI(p) \/ AllocD(p) \/ Adjust(p) \/ Finish(p))
+        \/ ((\A p \in Procs : wpc[p] \in {"done", "failed"}) /\ UNCHANGED vars)
 Spec == Init /\ [][Next]_vars
 
-Running == {p \in Procs : wpc[p] = "run"}
+\* a worker owns its integer array from AllocI on and its real array from AllocD on (it uses them once WorkInit has returned)
+HasI == {p \in Procs : wpc[p] \in {"dalloc", "adjust", "run"}}
+HasD == {p \in Procs : wpc[p] \in {"adjust", "run"}}
+Arrays == {<<ilo[p], ihi[p]>> : p \in HasI} \cup {<<dlo[p], dhi[p]>> : p \in HasD}
 StackOK == /\ 0 <= top1 /\ top1 <= top2 /\ top2 <= Size
            /\ used = top1 + (Size - top2)
 \* work arrays of running workers are pairwise disjoint, inside the buffer and above the L/U arrays
-WorkDisjoint == \A p \in Running : \A q \in Running : p # q => (whi[p] <= wlo[q] \/ whi[q] <= wlo[p])
-WorkInside == \A p \in Running : top1 <= wlo[p] /\ whi[p] <= Size /\ wlo[p] >= top2
+WorkDisjoint == /\ \A x \in Arrays : \A y \in Arrays : x # y => (x[2] <= y[1] \/ y[2] <= x[1])
+                /\ Cardinality(Arrays) = Cardinality(HasI) + Cardinality(HasD)
+WorkInside == \A x \in Arrays : top1 <= x[1] /\ x[2] <= Size /\ ((\A p \in Procs : wpc[p] # "adjust") => x[1] >= top2)
+WorkAligned == \A p \in HasD : ~Misaligned(dlo[p])
 AllReleased == (\A p \in Procs : wpc[p] \in {"done", "failed"}) => top2 = Size /\ users = 0
 =============================================================================
